@@ -327,6 +327,7 @@ def write_evidence(mod, prop_id, tier, seed, P, total, extra_cov, nviol, known_s
         obligations=P["obligations"], discharged=P["discharged"], checker_cmd=P["checker_cmd"],
         trusted_base=list(mod.TRUSTED_BASE),
         theorems=P["names"], axioms_per_theorem=P["axioms"], proof_failures=P["failures"],
+        lean_files_scanned=P.get("scanned_files", []),
         evaluations=total["n"], distinct_nontrivial=len(total["nontrivial"]), rule=mod.RULE,
         samples=total["samples"][:4] or [{"note": "no cases"}],
         traces_validated_against_impl=total["model_evals"],
